@@ -1194,7 +1194,7 @@ class Interp:
     def e_Deref(self, e): return self.place(e).get()
 
     def e_Borrow(self, e):
-        return RefV(self.place(e['arg']), e['mut'])
+        return RefV(self.place(e['arg']), e.get('mut', False))
     e_RawBorrow = e_Borrow
 
     def e_Lit(self, e):
@@ -1394,7 +1394,7 @@ class Interp:
         return StructV(path, fields, e['ty'])
 
     def e_Closure(self, e):
-        return ClosureV(e['def'], [self.eval(u) if u['k'] != 'Borrow' else RefV(self.place(u['arg']), u['mut']) for u in e['upvars']])
+        return ClosureV(e['def'], [self.eval(u) if u['k'] != 'Borrow' else RefV(self.place(u['arg']), u.get('mut', False)) for u in e['upvars']])
 
     def e_Coerce(self, e):
         v = self.eval(e['arg'])
